@@ -16,7 +16,7 @@ S_NOTE = ("Task-granularity interleavings on the real single-threaded executor (
 S_TECH = "stateless DFS over all task pick orders of the real executor x bounded-exhaustive scenario enumeration, reference-model oracle on the event log (+ preemption-bounded DFS of the real multi-threaded executor under shuttle / loom DPOR where listed in the engine field)"
 
 CHECKS = {
-    "C01": ("simx", "exploration", S_TECH,
+    "C01": ("simx+shutx", "exploration", S_TECH,
             "Every driver command sequence up to the stated depth over a 17-command alphabet (schedule*, cancel, step, "
             "step_until, process_*) and concurrent benches are run on the real single-threaded executor under every "
             "task pick order; a reference scheduler (pending occurrences, cancellation, expected time of every sub-step, "
@@ -30,7 +30,7 @@ CHECKS = {
             "Plain/map/filter_map connections to models and sinks from outputs, requestors, event/query sources, "
             "scheduler batches and process_*; volumes up to 2*cap+1; contended recipients; under every pick order the "
             "multiset of (message, recipient) processed must equal the multiset accepted by the connections.", S_NOTE, "5/C03"),
-    "C04": ("simx+shutx+loomx", "exploration", S_TECH,
+    "C04": ("simx+shutx+loomx+seqx", "exploration", S_TECH,
             "Content-deterministic benches under every pick order: at every Ok return no handler is half-way, no send "
             "pending, every sent message processed, and the per-command multiset of handler invocations, results and "
             "sink contents is identical across all schedules; a call that does not return is a violation (watchdog).",
@@ -160,11 +160,11 @@ def main():
             "add_only": True,
         },
         "engines": [
-            {"name": "shutx", "path": "engines/shutx", "serves_properties": ["C02", "C03", "C04", "C05", "C06", "C07", "C08", "C12", "C14", "C19"],
+            {"name": "shutx", "path": "engines/shutx", "serves_properties": ["C01", "C02", "C03", "C04", "C05", "C06", "C07", "C08", "C12", "C14", "C19"],
              "kind_free_text": "mirror of /repo/nexosim/src compiled against shuttle 0.9.3 (engines/mirror/mirror.py rewrites import lines only); own preemption-bounded DFS scheduler; real MT executor, channel, Simulation"},
             {"name": "loomx", "path": "engines/loomx", "serves_properties": ["C04", "C05", "C12", "C13", "C14", "C15"],
              "kind_free_text": "mirror of /repo/nexosim/src compiled against loom 0.7.2; loom DPOR with preemption bounds on the real queue, task, seqlock cell, cached lock"},
-            {"name": "seqx", "path": "engines/seqx", "serves_properties": ["C07", "C12", "C17", "C20"],
+            {"name": "seqx", "path": "engines/seqx", "serves_properties": ["C04", "C07", "C12", "C17", "C20"],
              "kind_free_text": "bounded-exhaustive operation-sequence enumeration on the real data structures (source files bound by #[path]) against reference models"},
             {"name": "simx", "path": "engines/simx", "serves_properties": sorted(k for k, v in CHECKS.items() if "simx" in v[0]),
              "kind_free_text": "stateless exhaustive exploration of the real crate on its single-threaded executor (pick hook), bounded-exhaustive driver sequences, reference-model oracles"},
